@@ -21,7 +21,7 @@ from vlib.common import HARNESS, REPO
 
 WRAPPED = ("pthread_create pthread_mutex_lock pthread_mutex_unlock pthread_cond_wait pthread_cond_signal "
            "pthread_cond_broadcast pthread_kill pthread_cancel pthread_join pthread_sigmask sigwait raise time sleep poll read "
-           "close fcntl fputs fflush exit").split()
+           "close fcntl fputs fflush exit gethostbyname").split()
 REPO_SRCS = ["src/pdsh/cbuf.c", "src/pdsh/rcmd.c", "src/common/err.c", "src/common/list.c", "src/common/hostlist.c",
              "src/common/xstring.c", "src/common/xmalloc.c", "src/common/fd.c", "src/common/xpoll.c"]
 NWORKERS = 8
@@ -459,6 +459,11 @@ def offenders(res):
     pw = parked_with_room(res)
     if pw is not None:
         out.append(("C04", "parked-with-room", "dispatcher parked in cond_wait with room for another target (step %d)" % pw))
+    if int(m.get("wrongaddr", 0) or 0) > 0:
+        out.append(("C03", "command-sent-to-another-targets-address",
+                    "%s connect(s) were handed an address that is not the target's own (the transport resolves hosts: "
+                    "every target is looked up, the resolver has one static result buffer), N=%d f=%d" %
+                    (m["wrongaddr"], n, f)))
     if status == "deadlock":
         out.append(("C03", "deadlock", "no runnable thread while dsh() has not returned (lost wake-up), N=%d f=%d" % (n, f)))
     elif status in ("budget", "spin"):
